@@ -12,6 +12,7 @@ import (
 	"math/rand"
 	"os"
 	"path/filepath"
+	"runtime"
 	"strconv"
 	"strings"
 	. "zharness/hz"
@@ -297,6 +298,7 @@ func runKeys(rng *rand.Rand, n int, out *Out, args []string) {
 	dir, _ := os.MkdirTemp("", "c19k")
 	defer os.RemoveAll(dir)
 	sizes := []int{16, 20, 24, 28, 32}
+	goldenKeyFiles(out)
 	for i := 0; i < n; i++ {
 		size := sizes[i%len(sizes)]
 		entropy := make([]byte, size)
@@ -342,6 +344,37 @@ func runKeys(rng *rand.Rand, n int, out *Out, args []string) {
 			panic(err)
 		}
 		keyLifeCycle(rng, out, entropy, kf.Path, pw, size)
+		// a key file is a function of (entropy, password, salt, nonce) only: written and read under different numbers of
+		// usable CPUs (GOMAXPROCS is what a container limit or a small VPS changes)
+		if i%3 == 0 {
+			procs := []int{1, 2, 3, 8}
+			wp, rp := procs[rng.Intn(len(procs))], procs[rng.Intn(len(procs))]
+			old := runtime.GOMAXPROCS(wp)
+			ksw, _ := wallet.VerifKeyStoreFromEntropy(append([]byte{}, entropy...))
+			var kfw *wallet.KeyFile
+			var ew error
+			if ksw != nil {
+				kfw, ew = ksw.Encrypt(pw)
+			}
+			runtime.GOMAXPROCS(rp)
+			okRT := false
+			var er error
+			if kfw != nil && ew == nil {
+				var back *wallet.KeyStore
+				back, er = kfw.Decrypt(pw)
+				okRT = er == nil && back != nil && bytes.Equal(back.Entropy, entropy)
+			}
+			// and the file written above with the default setting, read under the other one
+			rf2, e2 := wallet.ReadKeyFile(kf.Path)
+			okOld := false
+			if e2 == nil {
+				b2, e3 := rf2.Decrypt(pw)
+				okOld = e3 == nil && b2 != nil && bytes.Equal(b2.Entropy, entropy)
+			}
+			runtime.GOMAXPROCS(old)
+			out.Oracle(okRT && okOld, "keyfile-roundtrip", M{"where": "written and read under different GOMAXPROCS", "write_procs": wp, "read_procs": rp, "default_written_file_ok": okOld, "err": fmt.Sprint(ew, er)})
+			out.Count("keys:gomaxprocs-roundtrip")
+		}
 		rf, err := wallet.ReadKeyFile(kf.Path)
 		ok := err == nil
 		var dks *wallet.KeyStore
@@ -560,6 +593,19 @@ func keyLifeCycle(rng *rand.Rand, out *Out, entropy []byte, path, pw string, siz
 	}
 	keep(mks, "manager")
 	check("Manager.Unlock")
+	// an unlocked key file is no licence: every other password is still refused, through every entry of the manager
+	for _, wrong := range []string{"", pw + " ", "x" + pw, "wrong-password"} {
+		if wrong == pw {
+			continue
+		}
+		ks2, e1 := m.GetKeyFileAndDecrypt(path, wrong)
+		e2 := m.Unlock(path, wrong)
+		out.Oracle(e1 != nil && ks2 == nil && e2 != nil, "wrong-password-accepted", M{"where": "manager, key file already unlocked", "GetKeyFileAndDecrypt_err": fmt.Sprint(e1), "Unlock_err": fmt.Sprint(e2)})
+	}
+	if ks3, e := m.GetKeyFileAndDecrypt(path, pw); e != nil || ks3 == nil || !bytes.Equal(ks3.Entropy, entropy) {
+		out.Oracle(false, "keyfile-roundtrip", M{"where": "manager.GetKeyFileAndDecrypt, key file already unlocked", "err": fmt.Sprint(e)})
+	}
+	check("wrong passwords offered to the manager")
 	m.Lock(path)
 	check("Manager.Lock")
 	if m.Unlock(path, pw) == nil {
